@@ -308,6 +308,10 @@ def consumers_rule(ctx):
     # the sizing pass of the mapped writer reads the SAME stream as the writing pass (same opener: gzip, stdin)
     if fm is not None:
         c05.stats_rule(dep(ctx, "C06", "C05"), fm)
+        # .. and multiplies the record count by the width of the rows actually written (a width cached before
+        # `set_delim` / computed for another delimiter cuts the last rows: fewer rows than records)
+        from . import c14
+        c14.size_rule(dep(ctx, "C06", "C14"), fm)
 
 
 
